@@ -28,7 +28,7 @@ vars == <<i, st>>
 NoImage == [prog |-> "-", argv |-> << >>, envp |-> << >>, cwd |-> "-", io |-> <<"-", "-", "-">>,
             uid |-> -2, gid |-> -2, pg |-> "-"]
 NoFacts == [dio |-> << >>, raw |-> << >>, pipes |-> << >>, pgrp |-> 0, pfds |-> << >>, before |-> << >>, pos |-> << >>, nprog |-> 0]
-NoCfg == [bin |-> "-", envAlt |-> << >>, planned |-> << >>, feed |-> "", flow |-> << >>, mayHang |-> FALSE]
+NoCfg == [bin |-> "-", envAlt |-> << >>, planned |-> << >>, feed |-> "", flow |-> << >>, mayHang |-> FALSE, posWant |-> << >>]
 Fresh(run, c, facts) ==
     [run |-> run, c |-> [c EXCEPT !.envAlt = Range(@), !.planned = Range(@)], facts |-> facts,
      returns |-> << >>, failed |-> {}, child |-> "none", execd |-> FALSE, image |-> NoImage,
@@ -54,21 +54,23 @@ IoConsistent(s, m, d, facts, pipes) ==
                                /\ d.link \notin {"", "/dev/null", facts.dio[s].link}
                                /\ d.acc = (IF s = 1 THEN 0 ELSE 1)
       [] m = "raw"     -> d = facts.raw[s]
+      \* Stdio::RawFd(0 / 1 / 2): the caller's own standard descriptor, as it was before the spawn
+      [] m = "fd0"     -> d = facts.dio[1]
+      [] m = "fd1"     -> d = facts.dio[2]
+      [] m = "fd2"     -> d = facts.dio[3]
       [] OTHER         -> FALSE
 \* Inherit / RawFd: the program must work on the very OPEN FILE DESCRIPTION the caller had (not on some
 \* other description of the same file): every exec'ed program leaves a footprint on the regular files
 \* behind its descriptors 0/1/2 (reads 3 bytes from stdin, writes 2 to stdout / stderr); the check's own
 \* copies of the descriptions the driver started with (inh) and of the RawFd sources (raw) must have moved
-\* by exactly that - and not at all for streams that were to be /dev/null or a pipe
-Moved(s) == IF s = 1 THEN 3 ELSE 2
-PosOk(s, m, facts) ==
-    LET q == facts.pos[s]
-        k == Moved(s) * facts.nprog
-    IN  CASE m = "inherit" -> q.inh = k /\ q.raw = 0
-          [] m = "raw"     -> q.raw = k /\ q.inh = 0
-          [] OTHER         -> q.inh = 0 /\ q.raw = 0
+\* by exactly what the configured streams on them amount to - not at all when none is put on them
+\* c.posWant[s] = by how much ONE program moves the description the driver started with on descriptor
+\* s-1 (inh) and the RawFd source of stream s (raw), given which streams the configuration puts on them
+PosOk(s, c, facts) ==
+    /\ facts.pos[s].inh = c.posWant[s].inh * facts.nprog
+    /\ facts.pos[s].raw = c.posWant[s].raw * facts.nprog
 IoTags(c, dio, facts, pipes) ==
-    [s \in 1..3 |-> IF IoConsistent(s, c.io[s], dio[s], facts, pipes) /\ PosOk(s, c.io[s], facts) THEN c.io[s] ELSE "other"]
+    [s \in 1..3 |-> IF IoConsistent(s, c.io[s], dio[s], facts, pipes) /\ PosOk(s, c, facts) THEN c.io[s] ELSE "other"]
 
 \* a stdin pipe really is the caller's: what the caller wrote into the Child's stdin (cfg.feed) is what
 \* the program read from its descriptor 0 up to end-of-file (which `wait` must produce by closing it)
@@ -160,7 +162,10 @@ ObsOf(s) == [returns |-> s.returns, failed |-> s.failed, child |-> s.child, exec
 \* In the controlled environment of the check a step fails only when the plan makes it fail
 \* (the injected failure, a configured missing directory / program, a failing closure): any
 \* other failed call was caused by the implementation itself (wrong descriptor, bad pointer...)
-Unplanned(s) == {f \in s.failed : ~\E p \in s.c.planned : p.proc = f.proc /\ p.step = f.step /\ p.errno = f.errno}
+\* (the caller's own `close` calls are not judged here: closing a descriptor twice when the same RawFd is
+\* given for two streams is the descriptor-table property's subject, C12)
+Unplanned(s) == {f \in s.failed : ~(f.proc = "P" /\ f.step = "close")
+                                  /\ ~\E p \in s.c.planned : p.proc = f.proc /\ p.step = f.step /\ p.errno = f.errno}
 
 \* ---- standard streams: data flow and stray pipe ends ---------------------------------------------
 \* cfg.flow = what SpawnFlow.tla computes for the caller's plan when only the ends the API hands out
